@@ -178,6 +178,14 @@ fn n_mbi_getters_many_tags() {
         with_region(&body, |bi, base| {
             let got: Vec<usize> = bi.module_tags().map(|m| m as *const ModuleTag as *const u8 as usize - base).collect();
             assert_eq!(got, want, "module iterator yields exactly the module tags of the walk, in order");
+            for j in 0..=want.len() {
+                let mut it = bi.module_tags();
+                for _ in 0..j {
+                    it.next();
+                }
+                let rest: Vec<usize> = it.clone().map(|m| m as *const ModuleTag as *const u8 as usize - base).collect();
+                assert_eq!(rest, want[j..].to_vec(), "a module iterator cloned after {j} steps continues the same walk");
+            }
         });
         cases += 1;
     }
